@@ -58,17 +58,25 @@ META = {
              'literal root token scores strictly higher than a plain variable in the same position (C03_literal_beats_variable); '
              'a claiming root that extends another scores strictly higher (C03_longer_root_beats_prefix) - for every oracle, '
              'request and root. The order-independence half is refuted in Coq at full strength (C03_refuted_score_tie, known '
-             'finding K-C03-1, replayed on the real code). Route-level dominance and permutation invariance outside the tie '
-             'class are checked on the implementation (4 permuted builds per table; S.best_match_ok on every invoked route) '
-             'and by model correspondence; their Coq proofs are not done (partial).',
+             'finding K-C03-1, replayed on the real code). Route level (C03_curly_route, C03_jsr_route): the invoked route is never '
+             'one that another fully eligible route of the same service dominates (literal where it has a variable), for every '
+             'registration order and every method / Content-Type / Accept / condition combination - CurlyRouter for well-formed '
+             'templates without custom verb, RouterJSR311 under the measured premise jsr_all_agree. Permutation invariance of '
+             'the whole outcome outside the tie class is checked on the implementation (4 permuted builds per table; '
+             'S.best_match_ok on every invoked route) and by model correspondence; its Coq proof is not done (partial).',
         design_ref='DESIGN.md section 6, C03', note=NOTE_ROUTING, technique=TECH),
     'C18': dict(
         text='The statement at full strength is refuted in Coq with two witnesses that replay on the real code '
              '(C18_refuted_ranking, C18_refuted_empty_segment: known findings K-C18-1, K-C18-2). The check dispatches every '
              'generated request of the common fragment on twin containers differing only in the router and reports any '
              'disagreement outside the two finding classes (class predicates extracted from Coq); both router models are compared '
-             'with the implementation. The positive theorem C18_partial (agreement for clean paths and unambiguous candidates) is '
-             'not proved yet: only the shared detectRoute stage is (C18_shared_stage).',
+             'with the implementation. The positive half is proved (C18_agree, C18_agree_unclaimed): when both routers hand the '
+             'request to the same service whose templates read the same under both (non-empty literals and plain variables), '
+             'the path has no empty segment and the eligible routes are strictly ordered by literal-over-variable, both return '
+             'the same route with the same parameter map or the same error with the same Allow set; every premise is a boolean '
+             'evaluated on each generated case (hypotheses_of_C18_agree: ~95% of cases). That both routers pick the same service '
+             'for literal roots, and same-shape twins, are compared on the implementation, not proved. Stating the theorem '
+             'exposed defect F8 (newline in the path), repaired.',
         design_ref='DESIGN.md section 6, C18', note=NOTE_ROUTING, technique=TECH),
     'C14': dict(
         text='Theorems Props.C14_curly, C14_tokenize and C14_jsr (Coq, no axioms): under CurlyRouter, for every table, request and '
